@@ -96,6 +96,60 @@ theorem readN_total {r r' : Rd} {n : Nat} {b : Bytes} (h : r.readN n = some (b, 
     subst h'
     simp; omega
 
+
+/-! ## Big-endian 16-bit fields and reads of a known prefix -/
+
+/-- the two octets of a 16-bit big-endian field -/
+def be16 (v : Nat) : Bytes := encBE 2 v
+
+theorem be16_eq (v : Nat) : be16 v = [UInt8.ofNat (v / 256 % 256), UInt8.ofNat (v % 256)] := by
+  simp [be16, encBE]
+
+theorem be16_length (v : Nat) : (be16 v).length = 2 := by simp [be16_eq]
+
+theorem beN_be16 (v : Nat) (hv : v < 65536) : beN (be16 v) = v := by
+  simp only [be16_eq, beN, List.foldl_cons, List.foldl_nil, UInt8.toNat_ofNat']
+  omega
+
+theorem readN_append (a rest : Bytes) (cnt : Nat) :
+    (⟨a ++ rest, cnt⟩ : Rd).readN a.length = some (a, ⟨rest, cnt + a.length⟩) := by
+  simp [Rd.readN]
+
+theorem rU16_be16 (v : Nat) (rest : Bytes) (cnt : Nat) (hv : v < 65536) :
+    (⟨be16 v ++ rest, cnt⟩ : Rd).rU16 = some (v, ⟨rest, cnt + 2⟩) := by
+  have := readN_append (be16 v) rest cnt
+  rw [be16_length] at this
+  simp [Rd.rU16, this, beN_be16 v hv]
+
+/-! ## Moving the count -/
+
+/-- the same remaining octets at a count moved by `k` -/
+def Rd.shift (r : Rd) (k : Nat) : Rd := ⟨r.rem, r.cnt + k⟩
+
+@[simp] theorem Rd.shift_rem (r : Rd) (k : Nat) : (r.shift k).rem = r.rem := rfl
+@[simp] theorem Rd.shift_cnt (r : Rd) (k : Nat) : (r.shift k).cnt = r.cnt + k := rfl
+
+theorem readN_shift (r : Rd) (k n : Nat) :
+    (r.shift k).readN n = (r.readN n).map fun p => (p.1, p.2.shift k) := by
+  unfold Rd.readN
+  simp only [Rd.shift_rem, Rd.shift_cnt]
+  by_cases h : r.rem.length < n
+  · simp [h]
+  · simp [h, Rd.shift]; omega
+
+theorem rU8_shift (r : Rd) (k : Nat) : (r.shift k).rU8 = r.rU8.map fun p => (p.1, p.2.shift k) := by
+  simp only [Rd.rU8, readN_shift]; cases r.readN 1 <;> rfl
+theorem rU16_shift (r : Rd) (k : Nat) : (r.shift k).rU16 = r.rU16.map fun p => (p.1, p.2.shift k) := by
+  simp only [Rd.rU16, readN_shift]; cases r.readN 2 <;> rfl
+theorem rU32_shift (r : Rd) (k : Nat) : (r.shift k).rU32 = r.rU32.map fun p => (p.1, p.2.shift k) := by
+  simp only [Rd.rU32, readN_shift]; cases r.readN 4 <;> rfl
+theorem peek16_shift (r : Rd) (k : Nat) : (r.shift k).peek16 = r.peek16 := by
+  simp only [Rd.peek16, readN_shift]; cases r.readN 2 <;> rfl
+
+/-- a composite read commutes with moving the count -/
+def Shifts {α : Type} (g : Rd → Except Err α × Rd) : Prop :=
+  ∀ (k : Nat) (r : Rd), g (r.shift k) = ((g r).1, (g r).2.shift k)
+
 /-- a composite read is *prefix monotone*: on the truncated input it either reports a short read, or
 does exactly what it does on the extended input (same result, the tail `s` carried along) -/
 def Mono {α : Type} (g : Rd → Except Err α × Rd) : Prop :=
